@@ -22,7 +22,12 @@ MANIFEST = dict(
          "that both line readers (add_line incl. blank trimming and the **/ and /* rewriting; git's reader) put every "
          "grammar line into the executable class. Not covered by the grammar theorem (class hypothesis or known "
          "finding): negated classes / classes admitting '/', braces, escaped backslash or slash, a leading escaped ! "
-         "or #, tabs. Known findings refuted by witness. Tie to "
+         "or #, tabs. Known findings refuted by witness. Bracket expressions in full (complement mark ! or ^, a "
+         "leading ] or -, a trailing -): parse_class yields the documented token in any parser state "
+         "(parse_class_documented), glob level (parse_documented_syntax_classes), meaning (class_glob_meaning); every "
+         "class token the parser produces is non-empty with ascending ranges (parsed_class_tokens_wellformed), a line "
+         "that is not accepted takes nothing away from its file and accepted lines cannot poison the file's regex set "
+         "(unparsable_line_skipped, accepted_lines_tokens_wf). Tie to "
          "the code: three-way, git ls-files vs rg --files and ignore::WalkBuilder and "
          "Gitignore::matched_path_or_any_parents vs the model; extracted GitSem vs real git.",
     note="trusted: git 2.39 as executable specification; Coq kernel, extraction, OCaml driver, Rust harness; C12's trusted "
@@ -93,6 +98,8 @@ def gen_simple(rng, names):
         i = rng.randint(0, len(n))
         j = rng.randint(i, len(n))
         mid = rng.choice([b"*", b"?", b"*", b"[" + (n[i:i + 1] or b"a") + b"b]", b"[a-c]", b"[A-Z]", b"[.-]"])
+        if rng.random() < 0.12:
+            mid = rng.choice(EDGE_POS + EDGE_NEG)
         return esc(n[:i]) + mid + esc(n[j:])
     if k < 0.6:
         return rng.choice([b"*", b"*.*", b"*.", b".*", b"?", b"a*", b"*a", b"*.a", b"[ab]", b"[a-b]*", b"a?", b"?.", b"*-*"])
@@ -301,6 +308,57 @@ def gen_blank_repo(rng):
     return dict(tree=tree, ignores={b"": lines}, ci=False)
 
 
+# Bracket expressions at the edges of the class grammar.  gitignore(5) refers to fnmatch(3) / glob(7) for `[...]`:
+# "a ']' may be included in a bracket expression by placing it first (after the '!' or '^', if any)", both `!` and `^`
+# complement the class, a '-' that is first or last stands for itself.  globset documents `[!ab]`; its parser reads `^`
+# the same way.  The lists are spelled out (not derived from ripgrep's parser).
+EDGE_POS = [b"[]]", b"[]a]", b"[]-]", b"[]a-c]", b"[]-a]", b"[a-]", b"[-a]", b"[-]", b"[a-c-]", b"[-a-c]", b"[]ab-]",
+            b"[a-]]", b"[+-]]", b"[a^]", b"[a!]"]
+EDGE_NEG = [b"[!]]", b"[^]]", b"[!]a]", b"[^]a]", b"[!]-]", b"[^]-]", b"[^]a-c]", b"[!]a-c]", b"[!-a]", b"[^-a]", b"[^a-]",
+            b"[!a-]", b"[^a]", b"[!a]", b"[^a-c]", b"[!a-c]", b"[^]-a]", b"[!]ab-]", b"[^]ab-]", b"[^^]", b"[!!]", b"[^!]"]
+EDGE_BAD = [b"[b-a]", b"[", b"[^", b"[^]", b"[!]", b"[]", b"a\\", b"[]-", b"[^]-"]    # lines both tools reject or never match
+EDGE_PROBES = [b"]", b"-", b"a", b"b", b"c", b"^", b"!", b"+", b"1", b"[", b"z"]
+
+
+def gen_class_repo(rng):
+    """one or two ignore files in which a class line of the edge grammar stands NEXT TO ordinary rules (`*.log`, a
+    literal name, a re-inclusion): a line the glob machinery cannot digest must not take the other lines of its file
+    with it.  The tree holds, at depths 0-2, every one-character instantiation of the class position, so git and rg
+    are compared on each member/non-member; no directory is named like the literal prefix of the class line, so the
+    known finding ClassMatchesSeparator cannot be involved."""
+    k = rng.random()
+    cls = rng.choice(EDGE_NEG) if k < 0.55 else (rng.choice(EDGE_POS) if k < 0.9 else rng.choice(EDGE_BAD))
+    pre = rng.choice([b"n", b"n", b"x.", b""])
+    suf = rng.choice([b"m", b"m", b".y", b""])
+    if pre == b"" and suf == b"":
+        suf = b"m"
+    where = rng.choice([b"", b"", b"sub", b"sub/deep"])
+    tree = {b"sub": "d", b"sub/deep": "d", b"keep.txt": "f", b"a.log": "f", b"sub/b.log": "f", b"sub/deep/c.log": "f",
+            b"sub/keep": "f", b"sub/deep/keep": "f", b"lit": "f", b"sub/lit": "f"}
+    for d in (b"", b"sub/", b"sub/deep/"):
+        for c in EDGE_PROBES:
+            tree[d + pre + c + suf] = "f"
+        tree[d + pre + suf] = "f"
+        tree[d + pre + b"ab" + suf] = "f"
+    line = pre + cls + suf
+    form = rng.random()
+    if form < 0.2:
+        line = b"/" + line
+    elif form < 0.4 and where == b"":
+        line = rng.choice([b"sub/", b"sub/deep/", b"**/", b"sub/**/"]) + line
+    others = [b"*.log", rng.choice([b"lit", b"/lit", b"keep", b"*.txt"])]
+    lines = list(others)
+    lines.insert(rng.randint(0, len(lines)), line)
+    if rng.random() < 0.3:
+        lines = [pre + b"*" + suf] + lines[:]
+        lines[lines.index(line)] = b"!" + line
+    ignores = {where: lines}
+    if where != b"" and rng.random() < 0.5:
+        ignores[b""] = [b"*.log", pre + rng.choice(EDGE_POS + EDGE_NEG) + suf]
+    tree = {k: v for k, v in tree.items() if valid_name(k.split(b"/")[-1])}
+    return dict(tree=tree, ignores=ignores, ci=False)
+
+
 def gen_repo(rng, malformed):
     tree = gen_tree(rng)
     names = sorted({p.split(b"/")[-1] for p in tree})
@@ -320,13 +378,14 @@ _seen = {}
 _pending = []
 
 
-def viol(ctx, what, rep, nfi=False):
-    """at most 3 replays per kind; the message names the ignore files and the first differing path; reports without
-    a failing input are held back and dropped when the run produced a concrete violation"""
+def viol(ctx, what, rep, nfi=False, detail=""):
+    """at most 3 replays per kind (`detail` is shown but does not make a new kind); the message names the ignore
+    files and the first differing path; reports without a failing input are held back and dropped when the run
+    produced a concrete violation"""
     _seen[what] = _seen.get(what, 0) + 1
     if _seen[what] > 3:
         return
-    wit = ""
+    wit = detail
     if "repo" in rep:
         wit = " [ignore files=%r" % (rep["repo"]["ignores"],)
         if "git" in rep and "rg" in rep:
@@ -511,12 +570,13 @@ def in_documented_grammar(line):
             j = i + 1
             if body[j:j + 1] in (b"!", b"^"):
                 j += 1
+            j0 = j                                 # members start here (a leading `]` is a member)
             if body[j:j + 1] == b"]":
                 j += 1
             k = body.find(b"]", j)
             if k < 0:
                 return False                       # unclosed class
-            cls = body[i + 1:k]
+            cls = body[j0:k]
             if b"\\" in cls or b"[" in cls:
                 return False
             for t in range(len(cls) - 2):
@@ -621,16 +681,32 @@ def check_repos(ctx, repos):
             rep = dict(kind=401, repo=show(repo), git=[x.decode("latin1") for x in gfiles],
                        rg=[x.decode("latin1") for x in rfiles], rg_stderr=rerr.decode("latin1")[:300])
             known = K_CLASS if K_CLASS in feats else (K_BRACE if K_BRACE in feats else None)
+            m_ok = not (m in ("MISSING", "STACKOVERFLOW", "PANIC") or m.startswith("PARSEFAIL"))
+            # what the walker model lists: the model mirrors the unpatched code INCLUDING the known findings (they are
+            # refuted by witness on the model), so a divergence from git is "known" only when rg does what the model does
+            model_files = None
+            if m_ok:
+                mv0 = list(parse_val(m)[1])
+                model_files = sorted(ents[i][0] for i in range(len(ents)) if ents[i][1] == "f" and mv0[i])
             # 1. the property: rg --files = git ls-files --others --exclude-standard
             if gfiles != rfiles:
-                if known:
+                if known and (model_files is None or model_files == rfiles):
                     ctx.known(known, "ignore files %r: git lists %r, rg lists %r" % (show(repo)["ignores"], rep["git"], rep["rg"]))
+                elif known:
+                    viol(ctx, "rg --files lists a different set of files than git ls-files --others --exclude-standard, "
+                              "and not the set the known finding %s (present in the model) explains" % known,
+                         dict(rep, model_lists=[x.decode("latin1") for x in model_files]))
                 elif grammar:
                     viol(ctx, "rg --files lists a different set of files than git ls-files --others "
                                   "--exclude-standard", rep)
                 else:
                     ctx.cov["undocumented_shape_divergences"] = ctx.cov.get("undocumented_shape_divergences", 0) + 1
-            if m in ("MISSING", "STACKOVERFLOW") or c in ("PANIC", "MISSING") or m.startswith("PARSEFAIL"):
+            # 1b. every line is a line of the documented grammar: rg has nothing to complain about (a line it cannot
+            # digest is reported on stderr; when the glob SET of a file cannot be built the whole file is dropped)
+            if grammar and K_BRACE not in feats and rerr.strip():
+                viol(ctx, "rg reports an error for ignore files whose lines are all lines of the documented grammar",
+                     rep, nfi=(gfiles == rfiles), detail=" [stderr=%r]" % rerr.decode("latin1")[:160])
+            if not m_ok or c in ("PANIC", "MISSING"):
                 viol(ctx, "model/harness failure on a repository case: model=%s code=%s" % (m[:30], c[:30]), rep)
                 continue
             mv, cv = parse_val(m), parse_val(c)
@@ -859,6 +935,114 @@ def check_line_class(ctx, cases):
                  dict(kind=404, ci=ci, text=l.decode("latin1"), line=line, model=m), nfi=True)
 
 
+# ----------------------------------------------------------------------------- kind 405: documented bracket expressions
+
+FIRST_SINGLES = b"]-a^!b+.z_"
+LATER_SINGLES = b"abcxz+.09^!_,"
+FIRST_RANGES = [(93, 97), (93, 122), (97, 99), (97, 122), (48, 57), (43, 46), (65, 90), (94, 96), (33, 43)]
+LATER_RANGES = [(97, 99), (48, 57), (43, 46), (65, 90), (120, 122), (33, 43)]
+PROBES = b"]-^!abcdxyz+.,0159AMZ[_`~*?# "
+
+
+def gen_dclass(rng):
+    """an abstract bracket expression of Spec/GlobClassSyntax.v (mark, members in the order written, trailing '-');
+    the TEXT is produced by the Coq rendering, not here.  No member or range covers '/' or a backslash."""
+    mark = rng.choice([0, 1, 2, 2])
+    members = []
+    if rng.random() >= 0.08:
+        while True:
+            first = (lambda c: (c, c))(rng.choice(FIRST_SINGLES)) if rng.random() < 0.6 else rng.choice(FIRST_RANGES)
+            if mark != 0 or first[0] not in (33, 94):
+                break
+        members.append(first)
+        for _ in range(rng.choice([0, 0, 1, 1, 2, 3])):
+            members.append((lambda c: (c, c))(rng.choice(LATER_SINGLES)) if rng.random() < 0.6 else rng.choice(LATER_RANGES))
+    dash = True if not members else rng.random() < 0.35
+    return (mark, members, dash)
+
+
+FIXED_DCLASSES = [(2, [(93, 93)], True), (2, [(93, 93)], False), (1, [(93, 93)], False), (0, [(93, 93)], False),
+                  (2, [(93, 93), (97, 97)], False), (1, [(93, 93), (97, 97)], False), (0, [(93, 93)], True),
+                  (0, [(93, 97)], False), (2, [(93, 97)], False), (0, [], True), (2, [], True), (1, [], True),
+                  (0, [(45, 45), (97, 97)], False), (2, [(45, 45), (97, 97)], False), (0, [(97, 97)], True),
+                  (2, [(97, 99)], True), (2, [(94, 94)], False), (1, [(33, 33)], False), (2, [(33, 33)], False),
+                  (0, [(97, 97), (94, 94)], False), (2, [(93, 93), (97, 99)], True)]
+
+
+def check_dclasses(ctx, classes):
+    """kind 405, four readings of one documented bracket expression on the names n<probe>m: the documentation
+    (Spec dclass_admits), the gitignore model (add_line + re_spec), the code (GitignoreBuilder add_line + build +
+    matched) and real git (check-ignore) — all must agree; the code must neither reject the line nor fail to build
+    the file's glob set."""
+    def probes_of(members):
+        ps = set(PROBES)
+        for lo, hi in members:
+            ps |= {lo - 1, lo, hi, hi + 1}
+        return bytes(sorted(x for x in ps if 32 <= x < 127 and x not in (47, 92)))
+    cases = [(mark, members, dash, probes_of(members)) for mark, members, dash in classes]
+    mlines = [vlist([str(mark), vlist([vlist([str(lo), str(hi)]) for lo, hi in members]), "1" if dash else "0", vbytes(pr)])
+              for mark, members, dash, pr in cases]
+    mo = vlib.model(405, mlines)
+    texts = []
+    for m in mo:
+        ok = not (m in ("MISSING", "STACKOVERFLOW", "PANIC") or m.startswith("PARSEFAIL"))
+        texts.append(bytes(parse_val(m)[1]) if ok else b"")
+    co = vlib.code(405, [vlist([vbytes(t), vbytes(c[3])]) for t, c in zip(texts, cases)])
+    base = tempfile.mkdtemp(dir=vlib.CACHE, prefix="c04cls-")
+    st = ctx.cov.setdefault("documented_classes", dict(cases=0, complemented=0, leading_bracket=0, leading_dash=0, trailing_dash=0))
+    try:
+        root = os.path.join(base, "r")
+        materialize(dict(tree={}, ignores={}, ci=False), root)
+        for (mark, members, dash, pr), ml, m, text, c in zip(cases, mlines, mo, texts, co):
+            rep = dict(kind=405, cls=[mark, [list(x) for x in members], dash], line=text.decode("latin1"), model=m, code=c)
+            show_line = " [ignore line=%r]" % text.decode("latin1")
+            if not text or not m.startswith("(1 "):
+                viol(ctx, "kind 405: the generated bracket expression is not a documented class for the model "
+                          "(dclass_ok false or model failure) model=%s" % m[:60], rep, nfi=True)
+                continue
+            st["cases"] += 1
+            st["complemented"] += mark != 0
+            st["leading_bracket"] += bool(members) and members[0][0] == 93
+            st["leading_dash"] += (bool(members) and members[0][0] == 45) or not members
+            st["trailing_dash"] += bool(dash and members)
+            ctx.note_case(ml, True)
+            mv = parse_val(m)
+            spec = [bool(x) for x in mv[2]]
+            model = [x == 1 for x in mv[3]]
+            open(os.path.join(os.fsencode(root), b".gitignore"), "wb").write(text + b"\n")
+            names = [b"n" + bytes([b]) + b"m" for b in pr]
+            gres = run_check_ignore(dict(ci=False), root, names)
+            if sorted(gres) != sorted(names):
+                viol(ctx, "kind 405: git check-ignore did not answer for every probe" + show_line, rep, nfi=True)
+                continue
+            git = [gres[n][0] for n in names]
+            if c in ("PANIC", "MISSING") or c.startswith("PARSEFAIL") or not c.startswith("(0 "):
+                why = {"x01": "GitignoreBuilder::add_line rejects the line", "(1)": "GitignoreBuilder::add_line rejects the line",
+                       "x02": "the glob set of the ignore file does not build (every line of the file is lost)",
+                       "(2)": "the glob set of the ignore file does not build (every line of the file is lost)"}.get(c, "harness failure " + c[:30])
+                viol(ctx, "a documented bracket expression in an ignore line: %s; git reads it as a class" % why, rep,
+                     detail="%s git-ignored=%r" % (show_line, [n.decode("latin1") for n, g in zip(names, git) if g][:4]))
+                continue
+            code = [x == 1 for x in parse_val(c)[1]]
+            def first_diff(a, b):
+                return [names[i].decode("latin1") for i in range(len(names)) if a[i] != b[i]][:3]
+            if code != git:
+                viol(ctx, "rg and git read a documented bracket expression differently", rep,
+                     detail="%s names=%r (git ignores: %r)" % (show_line, first_diff(code, git),
+                                                               [git[i] for i in range(len(names)) if code[i] != git[i]][:3]))
+            if spec != git:
+                viol(ctx, "Spec/GlobClassSyntax.v dclass_admits disagrees with real git", rep, nfi=True,
+                     detail="%s names=%r" % (show_line, first_diff(spec, git)))
+            if model != code:
+                viol(ctx, "gitignore model and Gitignore::matched disagree on a documented bracket expression", rep,
+                     nfi=(code == git), detail="%s names=%r" % (show_line, first_diff(model, code)))
+            if spec != model:
+                viol(ctx, "model and documented meaning of a bracket expression disagree (theorem class_glob_meaning "
+                          "no longer describes the model)", rep, nfi=True, detail="%s names=%r" % (show_line, first_diff(spec, model)))
+    finally:
+        shutil.rmtree(base, ignore_errors=True)
+
+
 def check_add_line(ctx, cases):
     lines = [vlist(["1" if ci else "0", vbytes(l)]) for ci, l in cases]
     mo = vlib.model(403, lines)
@@ -921,6 +1105,20 @@ CORPUS += [   # two `**/x/y/z`-style patterns of different lengths (one shared s
                b"d/a/b/ab/c": "f", b"d/b": "d", b"d/b/ab": "f"},
          ignores={b"": [b"**/a/b/ab/", b"**/b/ab", b"**/ab/c"]}, ci=False),
 ]
+CORPUS += [   # a `]` first in a class (after `!` / `^`, if any) is a member; `-` first or last is a member; the class
+              # line stands next to ordinary rules that must stay in force whatever happens to it
+    dict(tree={b"xby": "f", b"xay": "f", b"x]y": "f", b"xzy": "f", b"a.log": "f", b"keep.txt": "f", b"sub": "d", b"sub/b.log": "f",
+               b"sub/xqy": "f", b"sub/deep": "d", b"sub/deep/n1m": "f", b"sub/deep/n]m": "f", b"sub/deep/n-m": "f", b"sub/deep/keep": "f"},
+         ignores={b"": [b"x[!]a]y", b"*.log", b"sub/deep/n[^]-]m"]}, ci=False),
+    dict(tree={b"n]m": "f", b"n-m": "f", b"nam": "f", b"n^m": "f", b"a.log": "f", b"d": "d", b"d/nbm": "f", b"d/n]m": "f", b"d/b.log": "f"},
+         ignores={b"": [b"*.log", b"n[^]a]m"]}, ci=False),
+    dict(tree={b"n]m": "f", b"n-m": "f", b"nam": "f", b"nbm": "f", b"a.log": "f", b"d": "d", b"d/n-m": "f", b"d/n]m": "f", b"d/b.log": "f"},
+         ignores={b"": [b"n[]-]m", b"*.log"], b"d": [b"!n[]a-]m"]}, ci=False),
+    dict(tree={b"n]m": "f", b"n-m": "f", b"nam": "f", b"nbm": "f", b"n!m": "f", b"a.log": "f"},
+         ignores={b"": [b"n[a-]m", b"n[!]!]m", b"*.log"]}, ci=False),
+    dict(tree={b"]": "f", b"-": "f", b"a": "f", b"b.log": "f", b"d": "d", b"d/]": "f", b"d/c": "f"},
+         ignores={b"": [b"*.log", b"/[^]]"], b"d": [b"[]]"]}, ci=False),
+]
 CORPUS += [   # same-extension wildcard rules of opposite polarity: every matching rule must be found, the last one wins
     dict(tree={b"src": "d", b"src/main.rs": "f", b"src/mod.rs": "f", b"src/lib.rs": "f", b"src/a.rs": "f", b"src/keep.x": "f"},
          ignores={b"": [b"src/*.rs", b"!src/m*.rs"]}, ci=False),
@@ -945,20 +1143,23 @@ def run(ctx):
     check_repos(ctx, CORPUS)
     check_repos(ctx, KNOWN_CORPUS)
     n = ctx.count(220)
-    repos = [gen_idiom_repo(rng) if i % 5 == 0 else (gen_blank_repo(rng) if i % 7 == 3 else
+    repos = [gen_idiom_repo(rng) if i % 5 == 0 else (gen_class_repo(rng) if i % 7 == 2 else gen_blank_repo(rng) if i % 7 == 3 else
                                                       (gen_suffix_repo(rng) if i % 7 == 6 else
                                                        (gen_ext_rules_repo(rng) if i % 7 == 1 else gen_repo(rng, rng.random() < 0.25))))
              for i in range(n)]
     ctx.cov["suffix_table_repos"] = sum(1 for i in range(n) if i % 5 != 0 and i % 7 == 6)
     ctx.cov["blank_escape_repos"] = sum(1 for i in range(n) if i % 5 != 0 and i % 7 == 3)
     ctx.cov["idiom_repos"] = sum(1 for i in range(n) if i % 5 == 0)
+    ctx.cov["class_edge_repos"] = sum(1 for i in range(n) if i % 5 != 0 and i % 7 == 2)
     check_repos(ctx, repos)
     check_one_file(ctx, CORPUS + KNOWN_CORPUS + repos)
     names = [x for x in NAME_POOL]
     check_nested(ctx, NESTED_CORPUS + [gen_nested(rng) for _ in range(ctx.count(40))])
     al = [(rng.random() < 0.2, gen_line(rng, names, rng.random() < 0.3)) for _ in range(ctx.count(600))]
+    al = [(False, b"n" + c + b"m") for c in EDGE_POS + EDGE_NEG + EDGE_BAD] + [(True, b"[^]-]"), (True, b"[]-]*")] + al
     check_add_line(ctx, al)
     check_line_class(ctx, al + [(r["ci"], l) for r in CORPUS + repos for ls in r["ignores"].values() for l in ls])
+    check_dclasses(ctx, FIXED_DCLASSES + [gen_dclass(rng) for _ in range(ctx.count(60))])
     flush_pending(ctx)
     ctx.assumptions += [
         "git 2.39 (ls-files --others --exclude-standard, check-ignore) is the executable specification",
@@ -972,6 +1173,8 @@ def replay(ctx, data):
         check_add_line(ctx, [(r["ci"], r["text"].encode("latin1"))])
     elif r.get("kind") == "nested":
         check_nested(ctx, [unshow_nested(r["case"])])
+    elif r.get("kind") == 405:
+        check_dclasses(ctx, [(r["cls"][0], [tuple(x) for x in r["cls"][1]], r["cls"][2])])
     elif r.get("kind") == 404:
         check_line_class(ctx, [(r["ci"], r["text"].encode("latin1"))])
     elif "repo" in r:
